@@ -305,7 +305,7 @@ FLOORS["C14"]["thorough"] = FLOORS["C14"]["quick"]
 PLANS["C06"] = {
     "rule": "u8: exhaustive - all 65 536 (colour, alpha) pairs shifted through every lane of rows of length 1..40, U8x2/U8x4, multiply and "
             "divide, 3 back-ends, 4 entry points; u16: all colours for 13 special alphas and vice versa plus random blocks of 65 536 pairs "
-            "(quick) / all 2^32 pairs (thorough, sub u16full); f32: rows of special and random finite values; unsupported: the 7 non-alpha "
+            "(quick) / all 2^32 pairs (thorough, sub u16full); f32: rows of special and random finite values; patterns: random colours with alphas in runs and blocks (wholly transparent / opaque / half-and-half groups of 2..16 pixels at every phase) on rows of length 1..=70; unsupported: the 7 non-alpha "
             "types must be rejected by all four entry points; oracle = exact integer arithmetic (multiply: round half up of c*a/max; divide: "
             "floor or ceil of c*max/a saturated at max, a=0 -> 0; alpha unchanged) and single IEEE operations for floats; "
             "non-trivial = every block; distinct = distinct block descriptor",
@@ -313,8 +313,11 @@ PLANS["C06"] = {
     "exhaustive": {"quick": False, "thorough": True},
     "quick": [step("rel", "firv-misc", 0, sub="u8", timeout=3000), step("rel", "firv-misc", 400, sub="u16"), step("rel", "firv-misc", 40000, sub="f32"),
               step("rel", "firv-misc", 0, sub="unsupported", shards=1), step("dbg", "firv-misc", 60, sub="u16"), step("asan", "firv-misc", 60, sub="u16"),
-              step("asan", "firv-misc", 4000, sub="f32"), step("miri", "firv-misc", 192, sub="small", shards=16, timeout=3000)],
+              step("asan", "firv-misc", 4000, sub="f32"), step("miri", "firv-misc", 192, sub="small", shards=16, timeout=3000),
+              # rows of length 1..=70 whose alphas come in runs and blocks (uniform and half-uniform groups of 2..16 pixels at every phase)
+              step("rel", "firv-misc", 200000, sub="patterns"), step("asan", "firv-misc", 20000, sub="patterns")],
     "thorough": [step("rel", "firv-misc", 0, sub="u8", timeout=7200), step("rel", "firv-misc", 4000, sub="u16", timeout=7200),
+                 step("rel", "firv-misc", 20000000, sub="patterns", timeout=7200),
                  step("rel", "firv-misc", 0, sub="u16full", timeout=14000), step("rel", "firv-misc", 4000000, sub="f32", timeout=7200),
                  step("rel", "firv-misc", 0, sub="unsupported", shards=1), step("dbg", "firv-misc", 400, sub="u16", timeout=7200),
                  step("asan", "firv-misc", 0, sub="u8", timeout=14000), step("asan", "firv-misc", 400, sub="u16", timeout=7200)],
@@ -322,6 +325,7 @@ PLANS["C06"] = {
 FLOORS["C06"] = {"quick": [
     (">= 10^9 pixels judged, >= 10^8 saturating divisions (colour > alpha)", lambda o: o["counters"]["pixels_judged"] >= 10 ** 9 and o["counters"]["saturating_divisions"] >= 10 ** 8),
     ("all 32 lane residues used in the 8-bit step", lambda o: len(o["sets"]["lanes_mod_32"]) == 32),
+    ("alpha runs/blocks on rows of every length 1..=70", lambda o: len(o["sets"]["pattern_row_lengths"]) == 70),
 ]}
 FLOORS["C06"]["thorough"] = FLOORS["C06"]["quick"]
 
